@@ -106,6 +106,16 @@ def _run(ctx: Ctx, mod, replay):
 		log(audit.get('raw_tail', ''))
 		raise BrokenCheck(f'{obligations - discharged} theorem(s) of {pid} not found in the built environment: {audit["missing"][:5]}')
 
+	# ---- thorough: independent re-check of the compiled modules with leanchecker ---------------------
+	leanchecker = None
+	if ctx.tier == 'thorough' and not ctx.tie_broken and not replay:
+		import subprocess
+		mods = [m for m, _ in all_pairs]
+		r = subprocess.run(['lake', 'env', 'leanchecker', *mods], cwd=LEAN, capture_output=True, text=True)
+		leanchecker = {'modules': mods, 'exit': r.returncode, 'tail': (r.stdout + r.stderr)[-300:]}
+		if r.returncode != 0:
+			raise BrokenCheck(f'leanchecker rejected {mods}: {leanchecker["tail"]}')
+
 	# ---- R: correspondence -----------------------------------------------------------------------
 	if replay:
 		payload = json.loads(Path(replay).read_text())
@@ -195,6 +205,7 @@ def _run(ctx: Ctx, mod, replay):
 			'replays': replay_paths,
 			'notes': ctx.notes,
 			'build_s': round(build_s, 2),
+			'leanchecker': leanchecker,
 		},
 		'assumptions': list(getattr(mod, 'ASSUMPTIONS', [])),
 		'wall_s': round(ctx.elapsed(), 2),
